@@ -1,6 +1,7 @@
 """C01 - the inspection verdict depends on the bytes only, never on the chunking; whatever is
 retained for a region is exactly the stream's bytes at that region's offsets."""
 import json
+import time
 
 import common
 import gen_insp
@@ -12,7 +13,7 @@ from common import Disagreement, Failure
 ID = 'C01'
 DRIVER = 'drv_insp'
 DRIVER_ROOT = 'Drivers.Insp'
-PROOF_MODULES = ['OsloProofs.Props.C01', 'OsloProofs.Props.C01Slice', 'OsloProofs.Props.C01Vmdk', 'OsloProofs.Props.C01Vhdx']
+PROOF_MODULES = ['OsloProofs.Props.C01', 'OsloProofs.Props.C01Slice', 'OsloProofs.Props.C01Vmdk', 'OsloProofs.Props.C01Vhdx', 'OsloProofs.Props.C01Wrap']
 LEVEL = 'proof'
 RULE = ('(format, bytes, chunking) triples: bytes are well-formed images of the ten layouts, field-mutated, truncated at '
         'and +-1 around every structure boundary, extended, pairwise polyglots, unstructured bytes and text, plus a '
@@ -274,8 +275,29 @@ def pairs_for(ctx, img, rng, budget, spent, wrap=False):
             continue
         spent[0] += c
         trace = (not wrap) and n <= 4096 and len(sizes) <= 1500
-        out.append(G.Pair(img, sizes, tag, trace=trace, poke=rng.random() < 0.5, kind='wrap' if wrap else 'insp'))
+        if wrap:
+            allowed, expected = wrapper_args(img, rng)
+            out.append(G.Pair(img, sizes, tag, kind='wrap', allowed=allowed, expected=expected))
+        else:
+            feed, ctor = G.pick_presentation(img.fmt, rng)
+            out.append(G.Pair(img, sizes, tag, trace=trace, poke=rng.random() < 0.5, feed=feed, ctor=ctor))
     return out
+
+
+def wrapper_args(img, rng, p_plain=0.4):
+    """(allowed_formats, expected_format) for an InspectWrapper run: the defaults, or the image's own
+    format / the formats of a polyglot / a random format as expected_format, with all formats or a subset"""
+    if rng.random() < p_plain:
+        return None, None
+    names = [img.fmt]
+    if img.tag.startswith('poly/'):
+        names = img.tag.split('/')[1].split(' ')[0].split('+')
+    expected = rng.choice(names + names + [rng.choice(G.FORMATS), None])
+    allowed = None
+    if rng.random() < 0.3:
+        allowed = sorted(set(names + ([expected] if expected else []) + rng.sample(G.FORMATS, rng.randrange(0, 4))),
+                         key=G.FORMATS.index)
+    return allowed, expected
 
 
 def correspondence(ctx):
@@ -323,7 +345,7 @@ def correspondence(ctx):
 REF = 512
 
 
-def stream_oracle(ctx, img, family, rng, fails, budget_pokes=2, poke_p=0.2):
+def stream_oracle(ctx, img, family, rng, fails, budget_pokes=2, poke_p=0.2, presentations=2, forced=None):
     """same bytes, every chunking: verdict equal to the verdict under 512-byte blocks, every retained
     region equal to the stream slice at its offsets, intermediate queries change nothing.
     Appends at most one Failure per image."""
@@ -338,7 +360,8 @@ def stream_oracle(ctx, img, family, rng, fails, budget_pokes=2, poke_p=0.2):
                                   'region %s retained bytes that are not stream[offset:offset+len] (512-byte blocks)' % bs))
         return
     pokes = 0
-    for tag, sizes in family:
+    plain = {}
+    for k, (tag, sizes) in enumerate(family):
         ctx.evaluations += 1
         ctx.count('search/chunking/' + tag)
         q = None
@@ -371,6 +394,40 @@ def stream_oracle(ctx, img, family, rng, fails, budget_pokes=2, poke_p=0.2):
             fails.append(make_failure(img, ref_sizes, small, 'verdict-depends-on-chunking',
                                       '512-byte blocks: %s | %d chunk(s) %s: %s' % (ref, len(small), G.pack_sizes(small)[:8], c)))
             return
+        plain[k] = c
+    # the same chunks presented differently: as a reused, afterwards overwritten bytearray / memoryview, and to an
+    # inspector built with each combination of the public constructor arguments - against the plain run of the
+    # SAME chunking, so that chunk-dependence inside a known class is not mistaken for this
+    pres = G.presentations(fmt)
+    pres = list(forced) if forced else (pres if presentations >= len(pres) else rng.sample(pres, presentations))
+    for feed, ctor in pres:
+        for k, (tag, sizes) in enumerate(family):
+            if k not in plain or len(sizes) > 1200 or not (tag.startswith('fixed') or tag in ('one', 'seed') or rng.random() < 0.15):
+                continue
+            ctx.evaluations += 1
+            ctx.count('search/presentation/%s%s' % (feed, ''.join('+%s=%s' % kv for kv in sorted(ctor.items()))))
+            c, full, i = G.impl_run(fmt, data, sizes, feed=feed, ctor=ctor)
+            bs = G.bad_slices(i, data)
+            if c != plain[k] or bs:
+                t0 = time.time()
+
+                def still(sz):
+                    if time.time() - t0 > 20:
+                        return False
+                    c1, _, i1 = G.impl_run(fmt, data, sz, feed=feed, ctor=ctor)
+                    return c1 != G.impl_run(fmt, data, sz)[0] or bool(G.bad_slices(i1, data))
+                small = G.shrink_cuts(n, sizes, still) if len(sizes) <= 3000 else sizes
+                if not still(small):
+                    small = sizes
+                c1, _, i1 = G.impl_run(fmt, data, small, feed=feed, ctor=ctor)
+                f = make_failure(img, small, small, 'verdict-depends-on-how-the-chunks-are-presented',
+                                 'chunks %s as bytes to %s(): %s | as %s to %s(%s): %s%s' % (
+                                     G.pack_sizes(small)[:8], fmt, G.impl_run(fmt, data, small)[0], feed, fmt,
+                                     ', '.join('%s=%s' % kv for kv in sorted(ctor.items())), c1,
+                                     ' (regions %s are not stream slices)' % G.bad_slices(i1, data) if G.bad_slices(i1, data) else ''))
+                f.case.update(feed=feed, ctor=ctor)
+                fails.append(f)
+                return
 
 
 def slices_bad_anytime(fmt, data, sizes):
@@ -384,35 +441,73 @@ def slices_bad_anytime(fmt, data, sizes):
 
 
 def wrap_core(line):
-    """chunk-independent part of a wrap reply: final format/formats and the per-inspector verdicts"""
+    """chunk-independent part of a wrap reply: how the reads ended, and - when the whole stream was presented -
+    the final format/formats and the per-inspector verdicts"""
     f = line.split('\t')
-    return f[2] + '\t' + G.core(f[3])
+    if f[1] != 'done':
+        return f[1]                   # aborted by the expected inspector: the rest saw only part of the stream
+    return f[1] + '\t' + f[2] + '\t' + G.core(f[3])
 
 
-def wrapper_oracle(ctx, img, family, fails):
+def wrapper_oracle(ctx, img, family, fails, allowed=None, expected=None):
     data = img.data
     n = len(data)
     ref_sizes = G.fixed(n, REF)
-    ref = wrap_core(insp_impl.run_wrap(None, None, data, ref_sizes)[0])
+
+    def run(sz):
+        return wrap_core(insp_impl.run_wrap(allowed, expected, data, sz)[0])
+    ref = run(ref_sizes)
     for tag, sizes in family:
         ctx.evaluations += 1
-        c = wrap_core(insp_impl.run_wrap(None, None, data, sizes)[0])
+        c = run(sizes)
         if c != ref:
-            small = G.shrink_cuts(n, sizes, lambda s: wrap_core(insp_impl.run_wrap(None, None, data, s)[0]) != ref)
-            c = wrap_core(insp_impl.run_wrap(None, None, data, small)[0])
-            diff = differing_inspectors(ref, c)
-            fails.append(make_failure(img, ref_sizes, small, 'wrapper-verdict-depends-on-chunking',
-                                      'InspectWrapper, inspectors %s differ: 512-byte blocks %s | %s: %s' % (
-                                          diff, ref.split('\t')[0], G.pack_sizes(small)[:8], c.split('\t')[0]),
-                                      ckind='wrap'))
+            t0 = time.time()
+            small = G.shrink_cuts(n, sizes, lambda s: time.time() - t0 < 20 and run(s) != ref)
+            if run(small) == ref:
+                small = sizes
+            c = run(small)
+            diff = differing_inspectors(ref, c, expected)
+            f = make_failure(img, ref_sizes, small, 'wrapper-verdict-depends-on-chunking',
+                             'InspectWrapper(allowed_formats=%s, expected_format=%s), inspectors %s differ: 512-byte blocks %s | %s: %s'
+                             % (allowed, expected, diff, ' '.join(ref.split('\t')[:2]), G.pack_sizes(small)[:8],
+                                ' '.join(c.split('\t')[:2])), ckind='wrap')
+            if allowed or expected:
+                f.case.update(allowed=allowed, expected=expected)
+            fails.append(f)
             return
 
 
-def differing_inspectors(a, b):
-    pa = dict(x.split(' ', 1) for x in a.split('\t')[1].split(';'))
-    pb = dict(x.split(' ', 1) for x in b.split('\t')[1].split(';'))
+def differing_inspectors(a, b, expected=None):
+    if '\t' not in a or '\t' not in b:
+        return [expected or '?']            # one of the runs was aborted by the expected inspector
+    pa = dict(x.split(' ', 1) for x in a.split('\t')[2].split(';'))
+    pb = dict(x.split(' ', 1) for x in b.split('\t')[2].split(';'))
     names = sorted(set(pa) | set(pb))
     return sorted({k.rstrip('!') for k in names if pa.get(k) != pb.get(k)})
+
+
+def polyglot_wrapper_search(ctx, rng, fails, full, enough):
+    """InspectWrapper with expected_format (and allowed_formats subsets) over pairwise polyglots: the verdict
+    after the whole stream must not depend on the reads"""
+    pairs = [(a, b) for a in G.FORMATS for b in G.FORMATS if a != b and 'raw' not in (a, b)]
+    if not full:
+        pairs = rng.sample(pairs, 20 if ctx.quick else 48)
+    for a, b in pairs:
+        data, bounds = G.polyglot(a, b, rng)
+        img = G.Img(a, data, bounds, 'poly/%s+%s' % (a, b))
+        n = len(data)
+        fam = [('one', [n])] + [('fixed%d' % cs, G.fixed(n, cs)) for cs in (4096, 65536) if cs < n]
+        pts = sorted({p + d for p in img.bounds for d in (-1, 0, 1) if 0 < p + d < n})
+        for p in rng.sample(pts, min(len(pts), 6)):
+            fam.append(('cut1', images.sizes_from_cuts([p], n)))
+        fam.append(('cut2+', images.sizes_from_cuts(sorted(rng.sample(pts, min(len(pts), 3))), n)))
+        fam.append(('dribble+giant', images.sizes_from_cuts([rng.randrange(1, min(n, 512))], n)))
+        for expected in (a, b):
+            allowed = rng.choice([None, None, [a, b], sorted({a, b, 'raw'}, key=G.FORMATS.index)])
+            ctx.count('search/wrapper-expected/%s' % ('all-formats' if allowed is None else 'allowed-subset'))
+            wrapper_oracle(ctx, img, fam, fails, allowed, expected)
+            if enough():
+                return
 
 
 def make_failure(img, sizes_a, sizes_b, kind, what, ckind='insp'):
@@ -452,12 +547,13 @@ def search(ctx, seeds, full=False):
         img = img_of_case(s)
         fam = [('seed', G.unpack_sizes(s['sizes']))] + search_family(ctx, img, rng, True)
         if s['kind'] == 'wrap':
-            wrapper_oracle(ctx, img, fam, fails)
+            wrapper_oracle(ctx, img, fam, fails, s.get('allowed'), s.get('expected'))
         else:
             before = len(fails)
-            stream_oracle(ctx, img, fam, rng, fails, budget_pokes=10 ** 6, poke_p=1.0)
+            forced = [(s.get('feed', 'bytes'), s.get('ctor') or {})] if (s.get('feed') or s.get('ctor')) else None
+            stream_oracle(ctx, img, fam, rng, fails, budget_pokes=10 ** 6, poke_p=1.0, forced=forced)
             if len(fails) == before:
-                stream_oracle(ctx, img, fam, rng, fails, budget_pokes=0)
+                stream_oracle(ctx, img, fam, rng, fails, budget_pokes=0, presentations=5)
         if enough():
             break
     # 2. the capture engine alone, exhaustively
@@ -470,7 +566,8 @@ def search(ctx, seeds, full=False):
         imgs = image_stream(ctx, rng, for_search=True)
         for img in imgs:
             ctx.count('search/' + img.tag.split('/')[0])
-            stream_oracle(ctx, img, search_family(ctx, img, rng, full), rng, fails, budget_pokes=6 if full else 3)
+            stream_oracle(ctx, img, search_family(ctx, img, rng, full), rng, fails, budget_pokes=6 if full else 3,
+                          presentations=5 if full else (1 if ctx.quick else 3))
             if enough():
                 break
         for img in rng.sample(imgs, min(len(imgs), 25 if ctx.quick else 120)) + [i for i in imgs if i.tag.startswith('known/')]:
@@ -478,7 +575,10 @@ def search(ctx, seeds, full=False):
                 break
             n = len(img.data)
             fam = G.chunk_family(n, img.bounds, rng, small=(17,) if n <= 40 * G.K else (), nrandom=3)
-            wrapper_oracle(ctx, img, fam, fails)
+            allowed, expected = wrapper_args(img, rng)
+            wrapper_oracle(ctx, img, fam, fails, allowed, expected)
+        if not enough():
+            polyglot_wrapper_search(ctx, rng, fails, full, enough)
     ctx._c01_failures = fails
     ctx.count('search/failures-in-known-classes', len([f for f in fails if classes_flat(f)]))
     return fails
@@ -502,9 +602,10 @@ def candidate_class(failure, listed_ids):
     data = G.decode_content(case['content'])
     kind = det.get('kind')
     if case['kind'] == 'wrap':
-        ref = wrap_core(insp_impl.run_wrap(None, None, data, G.unpack_sizes(case['sizes_a']))[0])
-        oth = wrap_core(insp_impl.run_wrap(None, None, data, G.unpack_sizes(case['sizes_b']))[0])
-        diff = differing_inspectors(ref, oth)
+        al, ex = case.get('allowed'), case.get('expected')
+        ref = wrap_core(insp_impl.run_wrap(al, ex, data, G.unpack_sizes(case['sizes_a']))[0])
+        oth = wrap_core(insp_impl.run_wrap(al, ex, data, G.unpack_sizes(case['sizes_b']))[0])
+        diff = differing_inspectors(ref, oth, ex)
         ids = []
         for f in diff:
             cl = [c for c in G.classes_of(f, data) if c in listed_ids]
@@ -526,9 +627,12 @@ def model_agrees(ctx, case):
     kind = case['kind']
     res = []
     sizes = [G.unpack_sizes(case['sizes_a']), G.unpack_sizes(case['sizes_b'])]
-    model = G.model_replies(ctx, case['fmt'], case['content'], sizes, kind)
+    al, ex = case.get('allowed'), case.get('expected')
+    model = G.model_replies(ctx, case['fmt'], case['content'], sizes, kind, al, ex)
     for s, m in zip(sizes, model):
-        impl = G.impl_final(case['fmt'], data, s, kind)
+        impl = G.impl_final(case['fmt'], data, s, kind, case.get('feed', 'bytes'), case.get('ctor'), al, ex)
+        if kind == 'wrap':
+            impl, m = G.wrap_canon(impl, ex), G.wrap_canon(m, ex)
         res.append((impl, m))
     return all(i == m for i, m in res), res
 
@@ -604,14 +708,38 @@ def replay(ctx, payload):
     kind = case['kind']
     if 'sizes_a' not in case:       # a correspondence disagreement
         sizes = G.unpack_sizes(case['sizes'])
-        p = G.Pair(G.Img(case['fmt'], data, [], case.get('tag', '')), sizes, 'replay', trace=bool(case.get('trace')), kind=kind)
-        impl = G.run_impl(p)
+        p = G.Pair(G.Img(case['fmt'], data, [], case.get('tag', '')), sizes, 'replay', trace=bool(case.get('trace')), kind=kind,
+                   feed=case.get('feed', 'bytes'), ctor=case.get('ctor'), allowed=case.get('allowed'), expected=case.get('expected'),
+                   poke=bool(case.get('poke')))
+        import random
+        impl = G.run_impl(p, random.Random(0))
+        if kind == 'wrap':
+            print('InspectWrapper(allowed_formats=%s, expected_format=%s)' % (case.get('allowed'), case.get('expected')))
+        elif p.feed != 'bytes' or p.ctor or p.poke:
+            print('chunks presented as %s to %s(%s)%s' % (p.feed, case['fmt'], p.ctor or '', ', observers queried in between' if p.poke else ''))
         model = ctx.driver.ask(p.line())
+        if kind == 'wrap':
+            impl, model = G.wrap_canon(impl, p.expected), G.wrap_canon(model, p.expected)
         print('%s %s, %d bytes, %d chunk(s)' % (kind, case['fmt'], len(data), len(sizes)))
         print('implementation:', impl[-3000:])
         print('model         :', model[-3000:])
         return 1 if impl != model else 0
+    if kind == 'insp' and (case.get('feed') or case.get('ctor')):
+        sizes = G.unpack_sizes(case['sizes_b'])
+        feed, ctor = case.get('feed', 'bytes'), case.get('ctor') or {}
+        c0, v0, _ = G.impl_run(case['fmt'], data, sizes)
+        c1, v1, i1 = G.impl_run(case['fmt'], data, sizes, feed=feed, ctor=ctor)
+        print('%s, %d bytes, chunk sizes %s' % (case['fmt'], len(data), case['sizes_b'][:12]))
+        print('  implementation, chunks as bytes to %s():' % case['fmt'], v0)
+        print('  implementation, chunks as %s (buffer reused and overwritten after each call) to %s(%s):' % (feed, case['fmt'], ctor or ''), v1)
+        print('  model         :', ctx.driver.ask(G.insp_line(case['fmt'], case['content'], sizes, False)).split('\t')[-1])
+        bs = G.bad_slices(i1, data)
+        print('property oracle on the implementation: verdict %s; regions that are not stream slices: %s'
+              % ('DIFFERS' if c0 != c1 else 'equal', bs or 'none'))
+        return 1 if (c0 != c1 or bs) else 0
     ok, res = model_agrees(ctx, case)
+    if kind == 'wrap':
+        print('InspectWrapper(allowed_formats=%s, expected_format=%s)' % (case.get('allowed'), case.get('expected')))
     cores = []
     for name, (impl, model) in zip(('sizes_a', 'sizes_b'), res):
         print('%s %s, %d bytes, chunk sizes %s' % (kind, case['fmt'], len(data), case[name][:12]))
